@@ -201,6 +201,15 @@ def apply_q(obj, q, args):
     return getattr(obj, q)(*args)
 
 
+def _touch(obj):
+    for probe in (lambda: obj[0], lambda: obj[-1], lambda: len(obj), lambda: list(obj),
+                  lambda: 0 in obj, lambda: list(reversed(obj))):
+        try:
+            probe()
+        except Exception:  # noqa: BLE001
+            pass
+
+
 def call(fn, *a):
     try:
         return fn(*a)
@@ -250,6 +259,9 @@ class Machine:
                 if isinstance(got, Raises):
                     return obj, ref, (r, got)
                 ref = r
+            # reads between the mutations, on the SAME object: a read must not leave anything
+            # behind (e.g. a cached positional index) that a later mutation forgets to invalidate
+            _touch(obj)
         return obj, ref, None
 
     def make_args(self, form, raw):
@@ -301,6 +313,18 @@ class Machine:
                           rank=len(hist))
             return None
         got = call(list, obj)
+        if got == ref and hist:
+            # positional view of the same (already read-from) object must agree with iteration
+            n = len(ref)
+            pos = [call(obj.__getitem__, i) for i in range(-n, n)] + [call(obj.__getitem__, n)]
+            want = [ref[i] for i in range(-n, n)] + [Raises("IndexError")]
+            if pos != want:
+                op, form, raw = hist[-1]
+                self.ctx.violation(self.fp(op, form, "stale-positional-view"),
+                                   f"{self.clsname}: after {hist} iteration gives {ref} but indexing gives {pos}",
+                                   {"machine": self.clsname, "alphabet": self.alphabet, "history": hist},
+                                   rank=len(hist))
+                return None
         if got != ref:
             op, form, raw = hist[-1]
             sig = "wrong-elements" if isinstance(got, Raises) or set(got) != set(ref) else "wrong-order"
